@@ -420,6 +420,23 @@ fn gen_cfg_c11(rng: &mut Rng, n_rules: usize) -> Cfg {
     Cfg { max_depth, strat, max_solutions: 1, memo: !rng.chance(1, 6) }
 }
 
+/// A value of another type with the same printed form (where one exists).
+fn print_alike(v: &Lit) -> Lit {
+    match v {
+        Lit::I(i) => Lit::S(i.to_string()),
+        Lit::B(b) => Lit::S(b.to_string()),
+        Lit::S(s) => {
+            if let Ok(i) = s.parse::<i64>() {
+                Lit::I(i)
+            } else if s == "true" || s == "false" {
+                Lit::B(s == "true")
+            } else {
+                Lit::S(s.clone())
+            }
+        }
+    }
+}
+
 fn gen_history(rng: &mut Rng, plan: &Plan) -> (FactsG, Vec<Step>, bool) {
     let facts = gen_facts(rng, plan);
     let rete = rng.chance(1, 4);
@@ -457,6 +474,9 @@ fn gen_history(rng: &mut Rng, plan: &Plan) -> (FactsG, Vec<Step>, bool) {
                         (f.to_string(), random_lit(rng, t))
                     };
                     let v = if rng.chance(1, 2) { v } else { other_lit(rng, &v) };
+                    // sometimes the value keeps its printed form but changes its type (3 -> "3",
+                    // true -> "true", "7" -> 7): a cache key that renders values loses exactly this
+                    let v = if rng.chance(1, 4) { print_alike(&v) } else { v };
                     present.push(f.clone());
                     steps.push(Step::Set(f, v));
                 }
@@ -474,6 +494,12 @@ fn gen_history(rng: &mut Rng, plan: &Plan) -> (FactsG, Vec<Step>, bool) {
                 }
             }
         }
+    }
+    if rng.chance(1, 8) && !plan.chain.is_empty() {
+        // targeted: same query before and after a supporting fact changes type but not print
+        let g = rng.pick(&pool).clone();
+        let (f, v) = rng.pick(&plan.chain).clone();
+        steps = vec![Step::Set(f.clone(), v.clone()), Step::Query(g.clone()), Step::Set(f.clone(), print_alike(&v)), Step::Query(g.clone()), Step::Set(f, v), Step::Query(g)];
     }
     steps.truncate(6);
     if !matches!(steps.last(), Some(Step::Query(_))) {
